@@ -40,10 +40,13 @@ Replay(cs, len) ==
 
 \* the shape of a case with dummy string lengths (only counts matter for the tag order)
 Ones(n) == [j \in 1..n |-> 1]
+BitSet(pat, j) == (pat \div (2 ^ (j - 1))) % 2 = 1
+Inner(n, pat, len) == [j \in 1..n |-> IF BitSet(pat, j) THEN len ELSE 0]
 ShapeOf(kind, sh) ==
     IF kind = "root"
     THEN [kind |-> "root", ver |-> sh.ver, ntex |-> sh.ntex, nmat |-> sh.nmat, ngrp |-> sh.ngrp, nport |-> sh.nport,
-          npv |-> sh.npv, npref |-> sh.npref, nvbl |-> sh.nvbl, vbl |-> sh.vbl, nlight |-> sh.nlight, ndd |-> sh.ndd,
+          pvlens |-> Inner(sh.nport, sh.pvpat, sh.npv), npref |-> sh.npref, nvbl |-> sh.nvbl,
+          vbllens |-> Inner(sh.nvbl, sh.vblpat, sh.vbl), nlight |-> sh.nlight, ndd |-> sh.ndd,
           nds |-> sh.nds, sky |-> sh.sky, skylen |-> 1, texlens |-> Ones(sh.ntex), grplens |-> Ones(sh.ngrp),
           ddlens |-> Ones(sh.ndd)]
     ELSE [kind |-> "group", ver |-> sh.ver, nvert |-> sh.nvert, nidx |-> sh.nidx, nnorm |-> sh.nnorm, ntc |-> sh.ntc,
@@ -70,6 +73,11 @@ StrRefDrift(e) == e.table = "MODN" /\ \E j \in 1..Len(e.refs) : ~(\E q \in 1..Le
 Owed(st) == IF st.kind = "rootconv" THEN ConvRootOwed(st.ver, st.to) ELSE ConvGroupOwed(st.ver, st.to)
 SecWhy(e, st) ==
     IF e.phase = "convert" THEN (IF e.name \in Owed(st) /\ e.a # e.b THEN "representable_section_changed" ELSE "")
+    \* the converted object written in the target version and parsed back: the ordinary round-trip
+    \* obligation at version st.to
+    ELSE IF e.phase = "convparse"
+         THEN (IF e.name \in RootSections /\ ~(e.name = "skybox" /\ ~SupportsSkybox(st.to)) /\ e.a # e.b
+               THEN "converted_section_lost_by_write_parse" ELSE "")
     \* a skybox reference is content only in versions that can carry one (WotLK+); written for
     \* Classic/TBC it is outside the format's domain (the writer drops it) -- no obligation
     ELSE IF e.name = "skybox" /\ ~SupportsSkybox(st.ver) THEN ""
@@ -109,10 +117,11 @@ Drift(e, st) ==
 \* ---- the trace state machine: phases of one case -------------------------------------------
 StepState(e, st) ==
     CASE e.ev = "Reset"   -> [Idle EXCEPT !.kind = e.kind, !.ver = e.ver, !.to = e.to, !.ph = "reset", !.shape = e.shape]
-      [] e.ev = "Write"   -> [st EXCEPT !.ph = IF IsOk(e.res) THEN "written" ELSE "ended", !.wlen = e.len, !.wtok = e.tok]
-      [] e.ev = "Parse"   -> [st EXCEPT !.ph = IF e.api = "legacy" /\ IsOk(e.res) THEN "parsed" ELSE st.ph,
+      [] e.ev = "Write"   -> [st EXCEPT !.ph = IF st.ph = "converted" THEN "converted" ELSE IF IsOk(e.res) THEN "written" ELSE "ended",
+                                        !.wlen = e.len, !.wtok = e.tok]
+      [] e.ev = "Parse"   -> [st EXCEPT !.ph = IF st.ph = "converted" THEN "converted" ELSE IF e.api = "legacy" /\ IsOk(e.res) THEN "parsed" ELSE st.ph,
                                         !.apiok = IF e.api = "binrw" THEN IsOk(e.res) ELSE st.apiok]
-      [] e.ev = "Sec"     -> [st EXCEPT !.seen = IF e.phase = "api" THEN st.seen ELSE st.seen \cup {e.name},
+      [] e.ev = "Sec"     -> [st EXCEPT !.seen = IF e.phase \in {"api", "convparse"} THEN st.seen ELSE st.seen \cup {e.name},
                                         !.seenapi = IF e.phase = "api" THEN st.seenapi \cup {e.name} ELSE st.seenapi]
       [] e.ev = "Rewrite" -> [st EXCEPT !.ph = "rewritten"]
       [] e.ev = "Convert" -> [st EXCEPT !.ph = IF IsOk(e.res) THEN "converted" ELSE "ended"]
@@ -122,9 +131,9 @@ StepState(e, st) ==
 \* order of events inside a case (guard style: a trace that violates it is a harness bug and stops)
 PhaseOk(e, st) ==
     CASE e.ev = "Reset"   -> TRUE
-      [] e.ev = "Write"   -> st.ph = "reset"
+      [] e.ev = "Write"   -> st.ph \in {"reset", "converted"}
       [] e.ev \in {"Chunks", "Count", "StrRef"} -> st.ph = "written"
-      [] e.ev = "Parse"   -> st.ph \in {"written", "parsed", "rewritten"}
+      [] e.ev = "Parse"   -> st.ph \in {"written", "parsed", "rewritten", "converted"}
       [] e.ev = "Sec"     -> st.ph \in {"written", "parsed", "rewritten", "converted"}
       [] e.ev = "Rewrite" -> st.ph = "parsed"
       [] e.ev = "RwChunk" -> st.ph = "rewritten"
